@@ -565,6 +565,40 @@ func (sw statusWrapper) SetStatus(rcpt string, err error) {
 	sw.sc.SetStatus(rcpt, sw.s.endp.wrapErr(sw.s.msgMeta.ID, !sw.s.opts.UTF8, "DATA", err))
 }
 
+// deferredStatuses records the per-recipient statuses reported during
+// BodyNonAtomic and passes them on once the outcome of Commit is known.
+type deferredStatuses struct {
+	sc statusWrapper
+
+	mu       sync.Mutex
+	statuses []deferredStatus
+}
+
+type deferredStatus struct {
+	rcpt string
+	err  error
+}
+
+func (d *deferredStatuses) SetStatus(rcpt string, err error) {
+	d.mu.Lock()
+	defer d.mu.Unlock()
+	d.statuses = append(d.statuses, deferredStatus{rcpt, err})
+}
+
+// flush reports the recorded statuses. If Commit failed, its error replaces
+// every successful status.
+func (d *deferredStatuses) flush(commitErr error) {
+	d.mu.Lock()
+	defer d.mu.Unlock()
+	for _, st := range d.statuses {
+		if st.err == nil {
+			st.err = commitErr
+		}
+		d.sc.SetStatus(st.rcpt, st.err)
+	}
+	d.statuses = nil
+}
+
 func (s *Session) LMTPData(r io.Reader, sc smtp.StatusCollector) error {
 	defer verifCall(s, "DATA", "")()
 	s.msgLock.Lock()
@@ -608,14 +642,20 @@ func (s *Session) LMTPData(r io.Reader, sc smtp.StatusCollector) error {
 		return wrapErr(err)
 	}
 
-	s.delivery.(module.PartialDelivery).BodyNonAtomic(bodyCtx, statusWrapper{sc, s}, header, buf)
+	// What the targets report from BodyNonAtomic is not final before Commit
+	// returned, so the statuses are held back until then: a recipient must not
+	// be told "250" for a message that is then not committed.
+	statuses := &deferredStatuses{sc: statusWrapper{sc, s}}
+	s.delivery.(module.PartialDelivery).BodyNonAtomic(bodyCtx, statuses, header, buf)
 
 	// We can't really tell whether it is failed completely or succeeded
 	// so always commit. Should be harmless, anyway.
 	commitStarted = true
 	if err := s.delivery.Commit(bodyCtx); err != nil {
+		statuses.flush(err)
 		return wrapErr(err)
 	}
+	statuses.flush(nil)
 
 	s.log.Msg("accepted", "msg_id", s.msgMeta.ID)
 
